@@ -45,6 +45,7 @@ Inductive event :=
  | EReq (s : nat) (p : pid) (k : kind) (r : req) (sz : Z) (imm : option bool)
         (* svc.Request(r) was called with promise p; imm = how Request itself completed p, if it did *)
  | EDial (s : nat) (ok : bool)
+ | ESwap (s : nat)                              (* swapBuffers took a non-empty portion (OnBeforeInsert is about to run) *)
  | ESend (s : nat) (k : kind) (b : block)       (* client.Do called with this block *)
  | EDone (s : nat) (ok : bool)                  (* that Do returned *)
  | EResolve (p : pid) (k : kind) (r : req) (ok : bool)   (* promise p completed *)
@@ -63,6 +64,7 @@ Fixpoint apply_sevs (s : nat) (k : kind) (st : list (pid * (kind * req * bool)))
   : list (pid * (kind * req * bool)) * list event :=
   match vs with
   | [] => (st, [])
+  | VSwap :: r => let '(st', es) := apply_sevs s k st r in (st', ESwap s :: es)
   | VSend b :: r => let '(st', es) := apply_sevs s k st r in (st', ESend s k b :: es)
   | VRet ok :: r => let '(st', es) := apply_sevs s k st r in (st', EDone s ok :: es)
   | VDone p rq ok :: r =>
